@@ -67,10 +67,27 @@ def body_of(fn):
     return json.dumps(norm(fn["thir"], {}), sort_keys=True)
 
 
+def _measuring_ctor(F):
+    """the private constructor of the code memory used by the measuring pass: the associated function of JitMemory,
+    other than `new`, that builds a JitMemory value directly (whatever it is called)"""
+    c = sorted(p for p, fn in F.fns.items() if re.match(r"^jit::JitMemory::\w+$", p) and p != "jit::JitMemory::new" and fn.get("thir")
+               and any(n.get("k") == "adt" and str(n.get("path", "")).endswith("JitMemory") for n in walk(fn["thir"]["body"])))
+    return c[0] if len(c) == 1 else None
+
+
 def run(rep, tier):
     cs = Ctx(rep, "std")
     cn = Ctx(rep, "nostd")
     S, N = cs.F, cn.F
+    global MAY_DIFFER
+    mc = _measuring_ctor(S)
+    MAY_DIFFER = {(mc if (how == "layout-field" and mc) else p): how for p, how in MAY_DIFFER.items() if how != "wrapper"}
+    # the functions that hand the program to the x86-64 code generator (the three compile wrappers, or a private
+    # helper they share): whichever function calls JitMemory::new directly
+    for q, fq in sorted(S.fns.items()):
+        if fq.get("thir") and "{closure" not in q and q.startswith("EbpfVm") and \
+                any(c.get("k") == "call" and (callee_path(c) or "").endswith("JitMemory::new") for c in walk(fq["thir"]["body"])):
+            MAY_DIFFER[q] = "wrapper"
     both = sorted(set(S.fns) & set(N.fns))
     ra = rep.rule("R20.a", "items present in only one configuration are the documented ones", floor=5)
     std_only = sorted(set(S.fns) - set(N.fns))
@@ -158,7 +175,7 @@ def run(rep, tier):
     oke, founde = False, "missing"
     if fnn and fnn.get("thir"):
         page = Fn_.const("jit::PAGE_SIZE")
-        OPQ = ("jit_compile", "resolve_jumps", "round_up_to_page", "JitMemory::counter", "JitCompiler::new")
+        OPQ = ("jit_compile", "resolve_jumps", "round_up_to_page", _measuring_ctor(Fn_) or "JitMemory::counter", "JitCompiler::new", "JitCompiler::default")
         ev = symex.Evaluator(Fn_, opaque_calls=lambda q: q.endswith(OPQ))
         args = [ev.sym_for("a%d" % k, q["ty"]) for k, q in enumerate(fnn["thir"]["params"])]
         mems = [a for a, q in zip(args, fnn["thir"]["params"]) if q["ty"].startswith("&mut [u8]") or q["ty"].startswith("&'a mut [u8]")]
@@ -244,8 +261,11 @@ def _special(how, p, fs, fn, cs, cn):
                     return {k: (strip(v).get("v"), strip(v).get("k")) for k, v in n["fields"].items()}
             return None
         a, b = fields(fs), fields(fn)
+        from props.c12 import field_by_type
+        pos = field_by_type(cs.F, "jit::JitMemory", r"^usize$")
+        flag = field_by_type(cs.F, "jit::JitMemory", r"^bool$")
         ok = a is not None and b is not None and {k: v for k, v in a.items() if k != "layout"} == b and \
-            a.get("write_enabled", (None,))[0] is False and a.get("offset", (None,))[0] == 0
+            pos is not None and a.get(pos, (None,))[0] == 0 and (flag is None or a.get(flag, (None,))[0] is False)
         return ok, {"std": a, "nostd": b}
     if how == "two-pass":
         import props.c12 as c12
@@ -254,12 +274,18 @@ def _special(how, p, fs, fn, cs, cn):
         return a[0] and b[0] and a[1].get("passes") == b[1].get("passes"), {"std": a[1], "nostd": b[1]}
     if how == "wrapper":
         def flags(f):
+            # the two boolean arguments, as written (a literal or the name of a variable), in order
             for c in _calls(f):
                 if (callee_path(c) or "").endswith("JitMemory::new"):
-                    return [strip(a).get("v") for a in c["args"] if strip(a).get("k") == "lit" and strip(a).get("lk") == "bool"]
+                    out = []
+                    for a in c["args"]:
+                        x = strip(a)
+                        if x.get("ty") == "bool":
+                            out.append(x.get("v") if x.get("k") == "lit" else (x.get("name") if x.get("k") in ("var", "upvar") else "?"))
+                    return out
             return None
         a, b = flags(fs), flags(fn)
-        return a is not None and a == b and len(a) == 2, {"std": a, "nostd": b}
+        return a is not None and a == b and len(a) == 2 and "?" not in a, {"std": a, "nostd": b}
     if how == "ctor":
         def lit(f):
             for n in walk(f["thir"]["body"]):
